@@ -707,6 +707,10 @@ var c08commentForms = []struct{ before, afterElem, afterSep string }{
 	{"", "", " # one\n"},
 	{"/* c */ ", "", ""},
 	{"", " /* c */", ""},
+	{"/**/", "", ""},
+	{"", " #\n", ""},
+	{"", "/*\n*/", ""},
+	{"", "", " # \n"},
 }
 
 // c08commented renders open e0 sep e1 ... close with a comment at element i in the given
@@ -777,6 +781,9 @@ func (s *c08state) commentedContainers() {
 							}
 							if !c.Thorough() {
 								// rotate the commented element, keep the signed successors
+								if form >= 4 && bi != 1 && bi != (size+i)%len(c08elemPool) {
+									continue // empty comments: fewer successors
+								}
 								if ai != (size+i+form)%len(c08elemPool) {
 									continue
 								}
@@ -832,13 +839,37 @@ var c08witnesses = []c08case{
 	{"comment", "foo(1 # c\n, 2)", false}, {"comment", "m := {\"a\" : 1, # first\n \"b\" : 2 # second\n}", false},
 	{"comment", "x := [\n 1 # c\n, -2, 3, 4, 5]", false}, {"comment", "x := [\n 1 # c\n, 2, 3, 4, 5]", false},
 	{"comment", "a := 1 # x, y,\nb := 2", false},
+	{"comment", "/**/a", true}, {"comment", "/**/1", true}, {"comment", "/**/ a", true}, {"comment", "/**/\na", true},
+	{"comment", "f(/**/a)", false}, {"comment", "[/**/1]", true}, {"comment", "/* */a", true}, {"comment", "/*\n*/\na", true},
+	{"comment", "b := 1\n/*\n*/\na", false}, {"comment", "a #\nb", false}, {"comment", "a # \nb", false},
+	{"comment", "if a {\n /**/\n b := 1\n}", false}, {"comment", "/*\n\n*/\na := 1\n/**/\nb := 2", false},
 	{"comment", "a := [1 # one\n, +2, 3, 4, 5]", true}, {"comment", "a := {1 : 1 # one\n, +2 : 2, 3 : 3}", false},
 	{"comment", "a := [1 # one\n, -2, 3, 4, 5]", true}, {"comment", "foo(1 # one\n, +2, [1, 2, 3, 4, 5])", false},
 	{"expr", "a * (b / c)", true}, {"string", "r\"a\n{{1+2}}\"", true},
+	// statement separator (C08-5): a statement starting with - + ( continues the previous line
+	{"stmt", "a; -b", false}, {"stmt", "a; (b + c) * d", false}, {"stmt", "if a {\n b\n} ; -c", false},
+	{"stmt", "a;+b", false}, {"stmt", "a := 1; -a", true}, {"stmt", "a := f; (b + c) * d", false},
+	{"stmt", "if a {\n b; -c\n}", false}, {"stmt", "for x in y {\n a; (b + c) * d; +e\n}", false},
+	{"stmt", "func f() {\n a; -b; (c) * 2\n}", false}, {"stmt", "g := func () {\n a; -b\n}", false},
+	{"stmt", "try {\n a; -b\n} except {\n c; +d\n} finally {\n e; (f) * 1\n}", false},
+	{"stmt", "sink s kindmatch [\"a\"] {\n a; -b\n}", false}, {"stmt", "mutex m {\n a; (b) + 1\n}", false},
+	{"stmt", "a;\n\n-b", false}, {"stmt", "-a; -b; -c", false},
+	{"comment", "a; /* k */ -b", false}, {"comment", "a;\n/* k */\n-b", false}, {"comment", "a # c\n;-b", false},
+}
+
+// statement pairs separated by ";" — the second statement starts with a token that may or may not
+// continue the first one when the printer puts it on a new line
+var c08pairFirst = []string{
+	"a", "a := 1", "a := f", "f()", "x[1]", "\"s\"", "1", "if a {\n b\n}", "return a", "a.b", "[1]", "{1 : 2}", "break",
+	"not a", "-a", "x := func () {\n}", "for a in b {\n}",
+}
+var c08pairSecond = []string{
+	"-b", "+b", "(b + c) * d", "(b)", "(b).c", "[1, 2]", "[1, 2][0]", "not b", "\"s\"", "r\"s\"", "1", "-1", "+1", "{1 : 2}",
+	"-(b + c)", "(-b)", "b",
 }
 
 func runC08(c *Ctx) error {
-	c.Rule = "sources by family — expr: every operator of parser.astNodeMap (read from the implementation's tables) nested under every other on either side with/without parentheses (exhaustive depth 2) plus seeded random fully parenthesised trees of depth <= 4 in 11 contexts; stmt: every block-bearing statement kind filled with every leaf statement, every ordered pair of leaves, and every container (depth 2); container: lists/maps/calls with 0..7 elements; string: values over {a,\",',\\,newline,tab,{{1+2}},{{,}},space,ä,€} up to length 3 in quoted/single-quoted/raw forms, at top level and inside a block; comment: a post or pre comment inserted before every token of 10 base programs, and post/pre comments after/before every element (also between element and separator, separator leading or trailing, one line or one element per line) of lists with 1..7 elements, maps with 1..4 entries, calls with 1..6 arguments and parameter lists with 1..5 presets, the commented element and its successor drawn from {n, -n, +n, not x, string, (a + b), list, map, identifier, call}; corpus: .ecal files and ecal.md code blocks of the repository. Oracles: re-parse equal up to positions/comments, idempotence, equal evaluation result, FormatFiles on a scratch directory; model: token sequence of the real output vs the Coq printer model. Non-trivial = the tree has children; distinct by source text"
+	c.Rule = "sources by family — expr: every operator of parser.astNodeMap (read from the implementation's tables) nested under every other on either side with/without parentheses (exhaustive depth 2) plus seeded random fully parenthesised trees of depth <= 4 in 11 contexts; stmt: every block-bearing statement kind filled with every leaf statement, every ordered pair of leaves, and every container (depth 2); pair: 17 first statements x 17 second statements starting with - + ( [ not, a string, a number, { or an identifier, separated by \";\" at top level, in a block, in a function body and with a blank line; container: lists/maps/calls with 0..7 elements; string: values over {a,\",',\\,newline,tab,{{1+2}},{{,}},space,ä,€} up to length 3 in quoted/single-quoted/raw forms, at top level and inside a block; comment: a post or pre comment inserted before every token of 10 base programs, and post/pre comments after/before every element (also between element and separator, separator leading or trailing, one line or one element per line) of lists with 1..7 elements, maps with 1..4 entries, calls with 1..6 arguments and parameter lists with 1..5 presets, the commented element and its successor drawn from {n, -n, +n, not x, string, (a + b), list, map, identifier, call}; every comment position also with empty and whitespace-only comments (/**/, /* */, /*<nl>*/, #<nl>, # <nl>); corpus: .ecal files and ecal.md code blocks of the repository. Oracles: re-parse equal up to positions/comments, idempotence, equal evaluation result, FormatFiles on a scratch directory; model: token sequence of the real output vs the Coq printer model. Non-trivial = the tree has children; distinct by source text"
 	c.BeginCases("From Coq Require Import String.\nFrom Ecal Require Import Common.Bytes Common.Ast gen.Tokens Run.RunC08.\nOpen Scope string_scope.", "case", 120)
 	s := &c08state{c: c, seenTree: map[string]bool{}}
 
@@ -915,6 +946,18 @@ func runC08(c *Ctx) error {
 			}
 		}
 	}
+	// statement pairs separated by ";" at top level, in a block, in a function, with a blank line
+	for i, l1 := range c08pairFirst {
+		for j, l2 := range c08pairSecond {
+			if c.Enough() {
+				break
+			}
+			s.one(c08case{"pair", l1 + "; " + l2, false}, (i+j)%3 == 0 || c.Thorough())
+			s.one(c08case{"pair", "if c {\n " + l1 + "; " + l2 + "\n}", false}, (i+j)%5 == 0 || c.Thorough())
+			s.one(c08case{"pair", "func f() {\n " + l1 + "; " + l2 + "; " + l1 + "\n}", false}, (i+j)%7 == 0 || c.Thorough())
+			s.one(c08case{"pair", l1 + ";\n\n" + l2 + "\n" + l2, false}, false)
+		}
+	}
 	// containers around the multi-line thresholds
 	for n := 0; n <= 7; n++ {
 		num := func(i int) string { return fmt.Sprint(i + 1) }
@@ -984,6 +1027,11 @@ func runC08(c *Ctx) error {
 			for _, cm := range []string{" # note\n", " /* note */ ", "\n/* multi\n line */\n", " # a, b,\n"} {
 				src := base[:t.Pos] + cm + base[t.Pos:]
 				s.one(c08case{"comment", src, false}, ti%6 == 0 || c.Thorough())
+			}
+			// empty and whitespace-only comments
+			for ei, cm := range []string{"/**/", " /* */ ", "\n/*\n*/\n", " #\n", " # \n", "/*\n\n */", "/*\t*/"} {
+				src := base[:t.Pos] + cm + base[t.Pos:]
+				s.one(c08case{"comment", src, false}, (ti+ei)%14 == 0 || c.Thorough())
 			}
 		}
 		s.one(c08case{"comment", base + " # trailing", false}, true)
